@@ -371,7 +371,7 @@ def gen_ops(rng, tier):
             s = rng.choice([s + "/" + gen_interval_duration(rng), s.replace("/", "", 1), gen_dur_string(rng, "order") + "/" + a,
                             a + "/" + gen_dur_string(rng, "fracym"), a + "/" + gen_dur_string(rng, "large")])
         yield ("pint", s)
-    # long durations with a sub-second part (finding F2c in the Python backend) and endpoints out of range
+    # long durations with a sub-second part (finding F19 in the Python backend) and endpoints out of range
     for _ in range(300 * n):
         a = gen_datetime(rng, 1200, 3000)
         d = "P%dDT%d.%06dS" % (rng.randint(99000, 2_000_000), rng.randint(0, 59), rng.randint(0, 999999))
@@ -396,7 +396,7 @@ def corpus():
 
 def line(op, backend):
     if _long_subsecond(op, backend, None, None):
-        return None     # float normalisation inside Duration (finding F2c): no counterpart in the exact model
+        return None     # float normalisation inside Duration (finding F19): no counterpart in the exact model
     return "%s %s %s" % (op[0], backend, enc_str(op[1]))
 
 
